@@ -36,11 +36,54 @@ Proof.
   - apply Rinv_0_lt_compat. apply lt_0_INR. exact Hn.
 Qed.
 
-Lemma rescale_x_total eps (X : dm R) : (0 < nrows X)%nat ->
+(* an exactly constant column has deviation 0 (over R), so with eps > 0 the exactly-constant clause
+   of rescale_x rejects nothing that the deviation test accepts *)
+Lemma col_constant_sd0 (X : dm R) j : (0 < nrows X)%nat -> col_constant ROps X j = true -> col_sd X j = 0.
+Proof.
+  intros Hn Hc. unfold col_constant in Hc. rewrite forallb_forall in Hc.
+  assert (Hall : forall i, (i < nrows X)%nat -> get X i j = get X 0%nat j).
+  { intros i Hi. destruct i as [|i]; [reflexivity|].
+    specialize (Hc (S i) ltac:(apply in_seq; lia)). cbn [oeqb ROps] in Hc. apply Reqb_true in Hc. exact Hc. }
+  assert (Hmu : col_mu X j = get X 0%nat j).
+  { unfold col_mu. rewrite (rsum_ext _ _ (fun _ => get X 0%nat j * 1)) by (intros i Hi; rewrite (Hall i Hi); ring).
+    rewrite rsum_scal.
+    assert (E : forall m, rsum m (fun _ => 1) = INR m).
+    { induction m as [|m IH]; [reflexivity|]. rewrite rsum_S, IH, S_INR. ring. }
+    rewrite E. field. apply not_0_INR. lia. }
+  unfold col_sd. rewrite (rsum_zero (nrows X)) by (intros i Hi; rewrite Hmu, (Hall i Hi); ring).
+  unfold Rdiv. rewrite Rmult_0_l. apply sqrt_0.
+Qed.
+Lemma rescale_x_old_some eps (X : dm R) r : 0 < eps -> (0 < nrows X)%nat ->
+  rescale_x_old eps X = Some r -> rescale_x ROps eps X = Some r.
+Proof.
+  intros Heps Hn. unfold rescale_x_old, rescale_x.
+  destruct (existsb (fun s => oltb ROps _ eps) (D.std ROps X true)) eqn:E; [discriminate|].
+  assert (Hnew : existsb (col_rejected ROps eps X (D.std ROps X true)) (seq 0 (length (D.std ROps X true))) = false).
+  { destruct (existsb (col_rejected ROps eps X _) _) eqn:E2; [|reflexivity]. exfalso.
+    apply existsb_exists in E2. destruct E2 as [j [Hin Hrej]]. apply in_seq in Hin.
+    rewrite ProofsRed.std_length in Hin. change (D.n_lines X true) with (ncols X) in Hin.
+    assert (Hj : (j < ncols X)%nat) by lia.
+    assert (Hold : oltb ROps (oabs ROps (osub ROps (nth j (D.std ROps X true) 0) (o0 ROps))) eps = false).
+    { destruct (oltb ROps _ eps) eqn:Eb; [|reflexivity].
+      assert (existsb (fun s => oltb ROps (oabs ROps (osub ROps s (o0 ROps))) eps) (D.std ROps X true) = true).
+      { apply existsb_exists. eexists. split; [|exact Eb]. apply nth_In. rewrite ProofsRed.std_length. exact Hj. }
+      congruence. }
+    cbn [oltb oabs osub o0 ROps] in Hold. apply Rltb_false in Hold.
+    unfold col_rejected in Hrej. apply orb_true_iff in Hrej. destruct Hrej as [Hc|Hs].
+    - rewrite (std_col_sd X j Hj Hn), (col_constant_sd0 X j Hn Hc) in Hold.
+      rewrite Rminus_0_r, Rabs_R0 in Hold. lra.
+    - apply negb_true_iff in Hs. cbn [oleb oabs osub o0 ROps] in Hs. apply Rleb_false in Hs. lra. }
+  rewrite Hnew. intros H; exact H.
+Qed.
+
+Lemma rescale_x_total eps (X : dm R) : 0 < eps -> (0 < nrows X)%nat ->
   (forall j, (j < ncols X)%nat -> eps <= col_sd X j) ->
   exists Z mu sd, rescale_x ROps eps X = Some (Z, mu, sd).
 Proof.
-  intros Hn Hsd. unfold rescale_x.
+  intros Heps Hn Hsd.
+  enough (exists Z mu sd, rescale_x_old eps X = Some (Z, mu, sd)) as [Z [mu [sd H]]]
+    by (exists Z, mu, sd; apply rescale_x_old_some; assumption).
+  unfold rescale_x_old.
   assert (Hex : existsb (fun s => oltb ROps (oabs ROps (osub ROps s (o0 ROps))) eps) (D.std ROps X true) = false).
   { destruct (existsb _ (D.std ROps X true)) eqn:E; [|reflexivity]. exfalso.
     apply existsb_exists in E. destruct E as [s [Hin Hlt]].
@@ -85,7 +128,7 @@ Proof.
   intros Heps Hwf Ha Hnp Hy Hsd Htot Hex. unfold ridge_fit.
   replace (nrows X <=? ncols X) with false by (symmetry; apply Nat.leb_gt; exact Hnp).
   rewrite Hy, Nat.eqb_refl. cbn [negb].
-  destruct (rescale_x_total eps X ltac:(lia) Hsd) as [Z [mu [sd Hr]]]. rewrite Hr.
+  destruct (rescale_x_total eps X Heps ltac:(lia) Hsd) as [Z [mu [sd Hr]]]. rewrite Hr.
   destruct (rescale_x_spec eps X Z mu sd Heps Hwf Hr) as [_ [_ [Lm [Ls _]]]].
   destruct (ridge_norm_system_spd eps X Z mu sd y alpha Heps Hwf Ha Hy Hr)
     as [a [rhs [E [Hsq [Hsym [Hpd [A1 _]]]]]]].
@@ -119,7 +162,7 @@ Qed.
 Lemma rescale_x_err eps (X : dm R) j : (0 < nrows X)%nat -> (j < ncols X)%nat -> col_sd X j < eps ->
   rescale_x ROps eps X = None.
 Proof.
-  intros Hn Hj Hlt. unfold rescale_x.
+  intros Hn Hj Hlt. apply rescale_x_old_none. unfold rescale_x_old.
   assert (Hex : existsb (fun s => oltb ROps (oabs ROps (osub ROps s (o0 ROps))) eps) (D.std ROps X true) = true).
   { apply existsb_exists. exists (nth j (D.std ROps X true) 0). split.
     - apply nth_In. rewrite ProofsRed.std_length. exact Hj.
